@@ -174,6 +174,8 @@ func c19Exec(c *Ctx, op string) string {
 				return "bad-op"
 			}
 			return c19CRD(c, op, v, f[6], f[7] == "1", f[8] == "1", f[9] == "1", f[10] == "1")
+		case "cap.node":
+			return c19Node(c, op, f[1:])
 		case "cap.adv":
 			if len(f) != 10 {
 				return "bad-op"
@@ -354,6 +356,7 @@ func c19Adv(c *Ctx, op string, v []int) string {
 
 func c19Run(c *Ctx) {
 	r := c.R
+	c19NodeRun(c, c.Scale(300, 5000))
 	small := func() int { return Pick(r, []int{0, 1, 2, 3, 4, 6, 8, 10, 15, 20, 30, 50, r.Intn(64)}) }
 	for i := 0; i < c.Scale(2500, 50000); i++ {
 		eniQ := Pick(r, []int{0, 1, 2, 3, 4, 7, 8, 9, 15, r.Intn(64)})
